@@ -18,6 +18,7 @@ import (
 
 	"github.com/beevik/etree"
 	"github.com/crewjam/saml"
+	"github.com/crewjam/saml/samlsp"
 	dsig "github.com/russellhaering/goxmldsig"
 
 	"verif/engine/core"
@@ -125,6 +126,97 @@ func runC13(c *core.Ctx) {
 	c13PeerShapes(c)
 	c13MethodNearMisses(c)
 	c13LogoutNameIDs(c)
+
+	// the ServiceProvider that samlsp builds when request signing is asked for: whatever key type it is given, it signs (with a method
+	// that fits the key) and the signatures verify under what it publishes
+	c.Group("samlsp-default-service-provider-with-SignRequest")
+	for _, kn := range c13Keys {
+		for _, msg := range c13Messages {
+			kn, msg := kn, msg
+			key := fmt.Sprintf("samlsp-default/key=%s/%s", kn, msg)
+			c.Case(key, func(t *core.T) {
+				t.NonTrivial()
+				kp := samlgen.Key(kn)
+				var sp saml.ServiceProvider
+				_, p := guard(func() error {
+					sp = samlsp.DefaultServiceProvider(samlsp.Options{URL: harness.MustURL("https://sp.example.com/"), Key: kp.Key, Certificate: kp.Cert, IDPMetadata: harness.IDPMetadata("meta1", "", ""), SignRequest: true})
+					return nil
+				})
+				t.Impl(1)
+				if p != "" {
+					t.Fail("C13/samlsp-default/panic@"+p[strings.LastIndex(p, "@")+1:], "samlsp.DefaultServiceProvider panicked: %s", p)
+					return
+				}
+				if sp.SignatureMethod == "" {
+					t.Fail("C13/samlsp-default/signing-asked-for-but-not-configured", "Options.SignRequest is set, key %s: the ServiceProvider has no signature method (it will emit unsigned requests)", kn)
+					return
+				}
+				c13Emit(t, &sp, kn, sp.SignatureMethod, msg, "rs", key)
+			})
+		}
+	}
+
+	// one AuthnRequest object rendered more than once (a page that offers both a redirect link and an auto-posting form): rendering it
+	// for one binding takes nothing away from the other
+	c.Group("one-request-object-rendered-twice")
+	for _, km := range [][2]string{{"sp2048", dsig.RSASHA256SignatureMethod}, {"spec256", dsig.ECDSASHA256SignatureMethod}} {
+		for _, made := range []string{saml.HTTPPostBinding, saml.HTTPRedirectBinding} {
+			for _, seq := range [][]string{{"redirect", "post"}, {"post", "redirect"}, {"post", "post"}, {"redirect", "redirect", "post"}, {"element", "redirect", "post"}} {
+				km, made, seq := km, made, seq
+				key := fmt.Sprintf("rendered-twice/key=%s/made-for=%s/%s", km[0], made[strings.LastIndex(made, ":")+1:], strings.Join(seq, ">"))
+				c.Case(key, func(t *core.T) {
+					t.NonTrivial()
+					sp := harness.NewSP(harness.SPOpt{SPKey: km[0], SignMethod: km[1]})
+					cert := samlgen.Key(km[0]).Cert
+					req, err := sp.MakeAuthenticationRequest(sp.GetSSOBindingLocation(made), made, saml.HTTPPostBinding)
+					t.Impl(1)
+					if err != nil {
+						t.Fail("C13/rendered-twice/constructor-error", "%v", err)
+						return
+					}
+					t.Compared()
+					for i, how := range seq {
+						switch how {
+						case "element":
+							_ = req.Element()
+						case "redirect":
+							u, rerr := req.Redirect("rs", sp)
+							if rerr != nil {
+								t.Fail("C13/rendered-twice/redirect-error", "rendering #%d: %v", i+1, rerr)
+								return
+							}
+							raw := u.RawQuery
+							a, b := strings.Index(raw, "SAMLRequest="), strings.Index(raw, "&Signature=")
+							if a < 0 || b < a {
+								t.Fail("C13/rendered-twice/redirect-unsigned", "rendering #%d (%s): the redirect URL carries no Signature although signing is configured", i+1, how)
+								return
+							}
+							sigB64, _ := url.QueryUnescape(raw[b+len("&Signature="):])
+							sig, _ := base64.StdEncoding.DecodeString(sigB64)
+							if !verifyDetached(cert, km[1], []byte(raw[a:b]), sig) {
+								t.Fail("C13/rendered-twice/redirect-signature-does-not-verify", "rendering #%d", i+1)
+							}
+						case "post":
+							f, ferr := htmlform.Parse(req.Post("rs"))
+							if ferr != nil {
+								t.Fail("C13/rendered-twice/post-form", "rendering #%d: %v", i+1, ferr)
+								return
+							}
+							rawReq, _ := base64.StdEncoding.DecodeString(f.Fields["SAMLRequest"])
+							el := samlgen.Parse(rawReq)
+							if made == saml.HTTPPostBinding {
+								n, ok, _, _, verr := verifyEnveloped(el, []*x509.Certificate{cert}, samlgen.T0)
+								if n != 1 || !ok {
+									t.Fail("C13/rendered-twice/post-form-unsigned-or-invalid", "rendering #%d (after %v): the posted AuthnRequest carries %d enveloped signatures, valid=%v (%s), although it was made signed for the POST binding", i+1, seq[:i], n, ok, verr)
+									return
+								}
+							}
+						}
+					}
+				})
+			}
+		}
+	}
 
 	// an SP that publishes its certificate chain (ServiceProvider.Intermediates): the first certificate of the signing descriptor is still
 	// the SP's own, and everything it signs verifies under it
